@@ -14,6 +14,11 @@ CHECKS = {
    text="From every pre-state of a catalog/KV/session BFS, every list (length<=2 over 39 verbs; length 3 over a focused subset in thorough) is applied as one Txn raft command, which places a failing operation at every position. Failure => full 36-table dump identical, no event batch published, no tombstone-GC hint deferred, no watch channel fired (fresh-instance pass), no results. Success => every changed row carries the entry's index and content equals applying the same operations one by one. Read-only transactions leave the dump identical.",
    note="Watch-channel firing is only observable on a primary memdb, so that clause runs on freshly replayed instances from the seed states only. Stand-alone equivalents exist for non-CAS verbs; lists containing catalog CAS verbs are checked for atomicity but not differentially.",
    design="§3 C05"),
+ "C10": dict(level="exploration", engine="E3 grid",
+   technique="exhaustive enumeration of command family x pre-state x supplied-index grid on the real FSM; matched/applied/reported oracle on full state dumps",
+   text="Every conditional command type (KV cas/delete-cas direct and in transactions, check-index guards, catalog node/service/check cas and delete-cas incl. writers carrying a different node ID, config entry upsert-cas/with-status-cas/delete-cas, CA set-config, CA set-roots, CA set-roots-and-config with the cross product of both indexes, autopilot CAS, ACL token CAS, feature-gate update with both expected indexes) is applied to every pre-state (absent, present, modified, re-created, deleted) with every supplied index class (0, current, previous, future). Matched is computed from the pre-state; applied from a byte comparison of the full 36-table dump; required: matched<=>applied<=>reported, and composites all-or-nothing.",
+   note="The grid is finite and enumerated completely (quick = thorough). ACL token CAS has no success flag, only applied<=>matched is decided. Deleting an absent entity is treated as vacuous.",
+   design="§3 C10"),
  "C03": dict(level="model_checking", engine="E1 opseq-BFS",
    technique="explicit-state BFS over KV/session/txn command sequences on the real FSM, reference-map oracle on every transition",
    text="Every sequence (to the reported depth, from every seed) of direct and transactional KV verbs, session create/destroy and tombstone reaps over prefix-colliding keys is executed on the real fsm.FSM/state.Store; after every transition the command result, get of every key and list of every prefix are compared with a 150-line reference map. Exhaustive within the stated alphabet and depth.",
@@ -52,6 +57,7 @@ def main():
         },
         "engines": [
             {"name": "E1 opseq-BFS", "path": "harness/e1", "serves_properties": [], "kind_free_text": "explicit-state breadth-first search over encoded raft log entries applied to the real FSM; dedup on canonical state dump"},
+            {"name": "E3 grid", "path": "harness", "serves_properties": [], "kind_free_text": "bounded-exhaustive enumeration of a finite input grammar, each input run through the real code and a reference oracle"},
         ],
         "checks": checks,
         "not_applicable": na,
